@@ -199,6 +199,42 @@ Proof.
   - intros; eapply (seg_resumed_paired (g0 :: rest) ex 0 g0 Hex); eauto.
 Qed.
 
+(* a segment resumed from a checkpoint that belongs together with an interrupt information executes
+   an interrupt-before node only if that information reports it — at whatever nesting level the pair
+   was found, whatever the node bodies, the schedule and the state modifier *)
+Lemma paired_resume_honours : forall F g (i : inf) (c : cpt),
+  paired F g i c ->
+  forall (ex : N -> option ncp -> value -> env -> tex * env) gi sm e o l e',
+    seg_resumed ex gi g sm c e = (o, l, e') ->
+    forall ev, In ev l -> memN (ev_key ev) (gs_before g) = true -> reported i (ev_key ev).
+Proof.
+  intros F g i c Hp ex gi sm e o l e' Hs ev Hin Hm.
+  inversion Hp as [g' i' c' Hrep Hsubs]; subst.
+  apply Hrep; auto.
+  eapply seg_resumed_before_only_pending; eauto.
+Qed.
+
+(* every nested checkpoint of a pair sits under a graph node, beside the nested information reported
+   under the same key, and the two belong together for the nested graph *)
+Lemma paired_descends : forall F g (i : inf) (c : cpt),
+  paired F g i c ->
+  forall k sc, In (k, sc) (cp_subs c) ->
+    exists si n j sub, In (k, si) (ii_subs i) /\
+      find_node (gs_graph g) k = Some n /\ n_kind n = KSub j /\ nth_error F j = Some sub /\
+      paired F sub (un_info si) (un_cp sc).
+Proof.
+  intros F g i c Hp k sc Hin.
+  inversion Hp as [g' i' c' Hrep Hsubs]; subst. clear Hp Hrep.
+  induction Hsubs as [|ki kc li lc [Hk (n & j & sub & Hn & Hkind & Hj & Hpair)] _ IH]; [destruct Hin|].
+  destruct Hin as [Heq|Hin].
+  - subst kc. simpl in *. exists (snd ki), n, j, sub.
+    split; [left; destruct ki as [k' si']; simpl in *; subst; reflexivity|].
+    split; [exact Hn|]. split; [exact Hkind|]. split; [exact Hj|exact Hpair].
+  - destruct (IH Hin) as (si & n' & j' & sub' & Hi & H1 & H2 & H3 & H4).
+    exists si, n', j', sub'.
+    split; [right; exact Hi|]. split; [exact H1|]. split; [exact H2|]. split; [exact H3|exact H4].
+Qed.
+
 (* ---------- witnesses (non-vacuity), evaluated by the kernel ---------- *)
 (* START -> 2 -> 3 -> END, interrupt-after {2}, interrupt-before {3; 3; 9} (a name given twice, a name
    of no node): the run takes two calls; node 3 executes in the second, the first reported it *)
